@@ -18,9 +18,9 @@ func init() {
 		Level: "exploration",
 		Rule: "seeded message-size sequences (sizes 0, 1, around max/2, max-overhead.., max, max+1) sent by 1..2 sender tasks into a real MessageBuffer (max batch size 8..96 bytes, flush timeout 10ms..1s on the simulated clock, queue capacity 1..3 or ample), a consumer task draining the queue at the scheduler's pace, Close from its own task at a scheduler-chosen moment, the clock advanced as a schedulable action so the flush timer can fire between any two steps; " +
 			"non-trivial = >=2 runnable tasks at some step and (a timer flush or a size-triggered flush happened); distinct = distinct (schedule, size sequence) hashes",
-		Exec: c32,
-		Real: []string{"pubsub.MessageBuffer (Send, Close, timer callback, clearPending)", "pubsub.CreateBatchMessage / ParseBatchMessage (canoto)", "avalanchego utils/timer.Timer on the bubble's fake clock"},
-		Stub: []string{"goroutine scheduling", "clock (synctest fake clock; advance is a scheduler choice)", "websocket connection (a consumer task reading MessageBuffer.Queue)"},
+		Exec:        c32,
+		Real:        []string{"pubsub.MessageBuffer (Send, Close, timer callback, clearPending)", "pubsub.CreateBatchMessage / ParseBatchMessage (canoto)", "avalanchego utils/timer.Timer on the bubble's fake clock"},
+		Stub:        []string{"goroutine scheduling", "clock (synctest fake clock; advance is a scheduler choice)", "websocket connection (a consumer task reading MessageBuffer.Queue)"},
 		Assumptions: []string{"a batch may be dropped only when the outgoing queue is full; runs with an ample queue therefore require exact delivery"},
 	})
 }
